@@ -1,7 +1,7 @@
 (* C03  Typed opcodes only ever receive operands of the kind they require. *)
 From Coq Require Import List NArith Bool.
 From PF Require Import Config Sim Ref Lex Envelope Oracles.
-From PF.proofs Require Import Refine Run PropsR Examples.
+From PF.proofs Require Import Refine Run PropsR LexRT PropsB Examples.
 
 (* ref_run_req checks req_ok (Ref.v: the requirement list of the property) before every step
    of the kind-tracking reference machine *)
@@ -19,6 +19,12 @@ Theorem C03_step : forall c s r t,
           /\ Inv (sim_step (c_version c) s t) r'.
 Proof. exact step_refines. Qed.
 Print Assumptions C03_step.
+
+Theorem C03_bytes : forall c framed steps,
+  safeb c = true -> run_R c framed steps -> fits c framed steps ->
+  oracle_C03 (serialize (run_tokens c framed steps)) = true.
+Proof. exact C03_B. Qed.
+Print Assumptions C03_bytes.
 
 Example C03_nonvacuous : safeb (ex_cfg V4 7) = true /\ run_R (ex_cfg V4 7) true ex_steps2.
 Proof. exact (conj (proj2 ex_safe) ex_run2). Qed.
